@@ -362,15 +362,15 @@ prop('C09', 'other',
 SIN_RANGE = '_ZN9fixedmath6detail9sin_rangeENS_7fixed_tE'
 SIN = '_ZN9fixedmath3sinENS_7fixed_tE'
 COS = '_ZN9fixedmath3cosENS_7fixed_tE'
-K_SIN_RANGE = (SIN_RANGE, 'pre_finite1', 'post_sin_range')
+K_SIN_RANGE = (SIN_RANGE, 'pre_valid1', 'post_sin_range')
 U('C09', 'c09.constants', 'lem_c09_constants', None, None, lemma=True, cxx='lem_c09_constants()')
-U('C09', 'c09.sin_range', SIN_RANGE, 'pre_finite1', 'post_sin_range', cxx='fixedmath::detail::sin_range($1)', **INTQ)
+U('C09', 'c09.sin_range', SIN_RANGE, 'pre_valid1', 'post_sin_range', cxx='fixedmath::detail::sin_range($1)', **INTQ)
 U('C09', 'c09.sin_range.ub', SIN_RANGE, 'pre_valid1', 'post_any1', cxx='fixedmath::detail::sin_range($1)', backends=MULBE, timeout=600)
 U('C09', 'c09.range_period', 'lem_c09_range_period', 'pre_c09_per', None, lemma=True, cxx='lem_c09_range_period($1,$2)', **INTQ)
 U('C09', 'c09.sin_factors', 'lem_c09_sin_factors', 'pre_c01', None, lemma=True, cxx='lem_c09_sin_factors($1,$2)', replace=[(SIN_RANGE, 'UF', 'post_sin_range')], **INTQ)
 U('C09', 'c09.cos_period', 'lem_c09_cos_period', 'pre_c09_per', None, lemma=True, cxx='lem_c09_cos_period($1,$2)', **INTQ)
-U('C09', 'c09.sin.kernel', SIN, 'pre_finite1', 'post_unit_interval', replace=[K_SIN_RANGE], cxx='fixedmath::sin($1)', backends=MULBE, timeout=900, split=True)
-U('C09', 'c09.cos', COS, 'pre_c09_cos', 'post_unit_interval', replace=[(SIN, 'pre_finite1', 'post_unit_interval')], cxx='fixedmath::cos($1)', backends=MULBE, timeout=300)
+U('C09', 'c09.sin.kernel', SIN, 'pre_valid1', 'post_unit_interval', replace=[K_SIN_RANGE], cxx='fixedmath::sin($1)', backends=MULBE, timeout=900, split=True)
+U('C09', 'c09.cos', COS, 'pre_c09_cos', 'post_unit_interval', replace=[(SIN, 'pre_valid1', 'post_unit_interval')], cxx='fixedmath::cos($1)', backends=MULBE, timeout=300)
 
 
 def c09_scan(tier, seed):
@@ -575,5 +575,86 @@ def c19_scan(tier, seed):
 
 
 E('C19', c19_scan)
+
+# ----------------------------------------------------------------------------- C07
+prop('C07', 'proof',
+     'Every public entry point that is inside the extraction subset is put under a contract whose precondition is the '
+     'property\'s domain (every fixed_t argument finite or +-NaN, i.e. any raw value but INT64_MIN; any value of an '
+     'integral or floating argument; shift counts <= 63) and whose content is the automatically generated obligations '
+     'of its body and of everything inlined into it: signed overflow of + - * unary-minus <<, shift distance and '
+     'negative left operand, division by zero and INT64_MIN/-1, float->integer conversion in range, array bounds, '
+     'clz(0). Series kernels, range reductions and sqrt enter through contracts proved in C09-C13 on the callers\' '
+     'domains (their preconditions are obligations here). Mixed-type operator instantiations are compositions of a '
+     'conversion (verified on every value) and a kernel (verified on every valid fixed_t); their forwarding layers '
+     'contain no arithmetic and are verified under C16.',
+     not_decided=['atan_index_aprox and atan_aprox are outside the extraction subset (std::lower_bound over std::array iterators): not under contract, native stand-in of C19 only',
+                  'operator""_fix(long double): CBMC has no sound 80-bit long double model for the narrowing cast; the double conversion it forwards to is verified on every double',
+                  'iostream operator<< is I/O, not arithmetic: excluded'],
+     assumptions=['std::sqrt: assumed contract (C13)'])
+UB = dict(ub_only=True)
+HEAVY = dict(ub_only=True, backends=MULBE, timeout=600)
+# comparison, bit and unary operators, floor/ceil, shifts
+for nm, mg, op in (('eq', 'eq', '=='), ('ne', 'ne', '!='), ('lt', 'lt', '<'), ('le', 'le', '<='), ('gt', 'gt', '>'), ('ge', 'ge', '>=')):
+    U('C07', 'c07.cmp.' + nm, '_ZN9fixedmath%sENS_7fixed_tES0_' % mg, None, None, cxx='($1 %s $2)' % op, **UB)
+for nm, fn, cx in (('isnan', ISNAN, 'fixedmath::isnan($1)'), ('neg', NEG, '(-$1)'), ('abs', ABS, 'fixedmath::abs($1)'), ('floor', FLOOR, 'fixedmath::floor($1)'), ('ceil', CEIL, 'fixedmath::ceil($1)'),
+                   ('shr', SHR, '($1 >> $2)'), ('shl', SHL, '($1 << $2)'), ('and', AND, '($1 & $2)')):
+    U('C07', 'c07.' + nm, fn, None, None, cxx=cx, **UB)
+# arithmetic kernels and operators on (fixed_t, fixed_t) incl. compound assignment
+for nm, fn, cx in (('add.kernel', ADDI, 'fixedmath::detail::fixed_additioni($1,$2)'), ('sub.kernel', SUBI, 'fixedmath::detail::fixed_substracti($1,$2)'), ('add.op', OP_ADD_FF, '($1 + $2)'),
+                   ('sub.op', OP_SUB_FF, '($1 - $2)'), ('add.assign', OP_ADDA_F, '($1 += $2)'), ('sub.assign', OP_SUBA_F, '($1 -= $2)')):
+    U('C07', 'c07.' + nm, fn, None, None, cxx=cx, **UB)
+for nm, fn, cx in (('mul.kernel', MULI, 'fixedmath::detail::fixed_multiplyi($1,$2)'), ('mul.op', '_ZN9fixedmathmlINS_7fixed_tES1_vEEDaT_T0_', '($1 * $2)'), ('mul.assign', '_ZN9fixedmathmLINS_7fixed_tEvEERS1_S2_T_', '($1 *= $2)'),
+                   ('div.kernel', DIVF, 'fixedmath::detail::fixed_divisionf($1,$2)'), ('div.op', '_ZN9fixedmathdvINS_7fixed_tES1_vEEDaT_T0_', '($1 / $2)'), ('div.assign', '_ZN9fixedmathdVINS_7fixed_tEvEERS1_S2_T_', '($1 /= $2)')):
+    U('C07', 'c07.' + nm, fn, None, None, cxx=cx, **HEAVY)
+for t, ct in ITYPES:
+    U('C07', 'c07.muls.' + ct, '_ZN9fixedmath6detail21fixed_multiply_scalarI%svEENS_7fixed_tES2_T_' % t, None, None, cxx='fixedmath::detail::fixed_multiply_scalar($1,$2)', **HEAVY)
+    U('C07', 'c07.divs.' + ct, '_ZN9fixedmath6detail24fixed_division_by_scalarI%svEENS_7fixed_tES2_T_' % t, None, None, cxx='fixedmath::detail::fixed_division_by_scalar($1,$2)', **HEAVY)
+    U('C07', 'c07.op.mul.f_' + ct, '_ZN9fixedmathmlINS_7fixed_tE%svEEDaT_T0_' % t, None, None, cxx='($1 * $2)', **HEAVY)
+    U('C07', 'c07.op.mul.%s_f' % ct, '_ZN9fixedmathmlI%sNS_7fixed_tEvEEDaT_T0_' % t, None, None, cxx='($1 * $2)', **HEAVY)
+    U('C07', 'c07.op.div.f_' + ct, '_ZN9fixedmathdvINS_7fixed_tE%svEEDaT_T0_' % t, None, None, cxx='($1 / $2)', **HEAVY)
+    U('C07', 'c07.i2f.' + ct, I2F(t), None, None, cxx='fixedmath::integral_to_fixed<%s>($1)' % ct, **UB)
+    U('C07', 'c07.f2i.' + ct, F2I(t), None, None, cxx='fixedmath::fixed_to_integral<%s>($1)' % ct, **UB)
+    U('C07', 'c07.a2r.' + ct, '_ZN9fixedmath16angle_to_radiansI%svEENS_7fixed_tET_' % t, None, None, cxx='fixedmath::angle_to_radians($1)', **HEAVY)
+for t in ('d', 'f'):
+    U('C07', 'c07.fp2f.' + t, FP2F(t), None, None, cxx='fixedmath::floating_point_to_fixed($1)', ub_only=True, backends=('sat', 'kissat'), timeout=600)
+    U('C07', 'c07.f2fp.' + t, F2FP(t), None, None, cxx='fixedmath::fixed_to_floating_point<%s>($1)' % {'d': 'double', 'f': 'float'}[t], **UB)
+U('C07', 'c07.literal.int', '_ZN9fixedmathli4_fixEy', None, None, cxx='fixedmath::operator""_fix($1)', **UB)
+# sqrt / hypot under both configurations
+U('C07', 'c07.pwr4', PWR4, None, None, cxx='fixedmath::detail::highest_pwr4_clz($1)', **UB)
+U('C07', 'c07.sqrt_abacus', SQRT_ABACUS, None, None, cxx='fixedmath::detail::sqrt_abacus($1)', prelude=SQ_PRELUDE, loop_contracts={1: SQRT_LOOP}, ghost=SQRT_GHOST,
+  replace_raw=['vf_lemma_sq_step', 'vf_lemma_sq_zero'], backends=('kissat', 'z3'), timeout=600, split=True, ub_only=True,
+  expect_props=['loop_invariant_base', 'loop_invariant_step', 'loop_decreases'])
+U('C07', 'c07.sqrt_std', SQRT_STD, None, None, cxx='fixedmath::detail::sqrt_std_math($1)', prelude=VF_SQRT_PRELUDE, replace_raw=['vf_sqrt'], ub_only=True, backends=('sat', 'kissat'), timeout=300)
+for cfg in ('abacus', 'stdsqrt'):
+    U('C07', 'c07.sqrt.' + cfg, SQRT, None, None, cxx=None, cfg=cfg, ub_only=True,
+      replace=[(SQRT_ABACUS, 'pre_valid1', 'post_any1')] if cfg == 'abacus' else [(SQRT_STD, 'pre_valid1', 'post_any1')])
+    U('C07', 'c07.hypot.' + cfg, HYPOT, None, None, cxx=None, cfg=cfg, replace=[(SQRT, 'pre_sqrt_hyp', 'post_sqrt_hyp')], **HEAVY)
+# trigonometric functions: kernels / range reductions by the contracts proved in C09-C12
+U('C07', 'c07.sin_range', SIN_RANGE, None, None, cxx='fixedmath::detail::sin_range($1)', **HEAVY)
+U('C07', 'c07.sin', SIN, None, None, cxx='fixedmath::sin($1)', replace=[K_SIN_RANGE], ub_only=True, backends=MULBE, timeout=900)
+U('C07', 'c07.cos', COS, None, None, cxx='fixedmath::cos($1)', replace=[(SIN, 'pre_valid1', 'post_unit_interval')], **HEAVY)
+U('C07', 'c07.tan', TAN, 'pre_valid1', 'post_tan', replace=[K_TAN_RANGE, K_TAN_K, K_DIV16], cxx='fixedmath::tan($1)', **INTQ)
+U('C07', 'c07.tan_k', TAN_K, 'pre_tan_k', 'post_tan_k', cxx=None, backends=MULBE, timeout=1800)
+U('C07', 'c07.atan_k', ATAN_K, 'pre_atan_k', 'post_atan_k', cxx=None, backends=MULBE, timeout=1800)
+U('C07', 'c07.asin_k', ASIN_K, 'pre_asin_k', 'post_asin_k', cxx=None, backends=MULBE, timeout=1800)
+for i in range(4):
+    U('C07', 'c07.atan_sum%d' % (i + 1), ATAN_SUM[i], K_ATAN_SUM[i][1], K_ATAN_SUM[i][2], replace=[K_ATAN_K, K_DIV16], cxx=None, **INTQ)
+U('C07', 'c07.atan', ATAN, 'pre_valid1', 'post_atan', replace=[K_ATAN_K] + K_ATAN_SUM, cxx='fixedmath::atan($1)', **INTQ)
+U('C07', 'c07.atan2', ATAN2, None, None, cxx='fixedmath::atan2($1,$2)', replace=[K_ATAN], **HEAVY)
+for cfg in ('abacus', 'stdsqrt'):
+    U('C07', 'c07.asin.' + cfg, ASIN, 'pre_valid1', 'post_asin', replace=[K_ASIN_K, K_SQRT_ASIN], cfg=cfg, cxx='fixedmath::asin($1)', backends=('sat', 'kissat'), timeout=300)
+U('C07', 'c07.acos', ACOS, None, None, cxx='fixedmath::acos($1)', replace=[K_ASIN], **HEAVY)
+K_SIN_ANY = (SIN, 'pre_valid1', 'post_any1')
+K_COS_ANY = (COS, 'pre_valid1', 'post_any1')
+K_TAN_ANY = (TAN, 'pre_valid1', 'post_any1')
+for t, ct in ITYPES + [('f', 'float'), ('NS_7fixed_tE', 'fixed_t')]:
+    sfx = 'EES1_T_' if ct == 'fixed_t' else 'EENS_7fixed_tET_'
+    for fnm, k in (('sin', K_SIN_ANY), ('cos', K_COS_ANY), ('tan', K_TAN_ANY)):
+        U('C07', 'c07.%s_angle.%s' % (fnm, ct), '_ZN9fixedmath9%s_angleI%s%s' % (fnm, t, sfx), None, None, cxx='fixedmath::%s_angle($1)' % fnm, replace=[k], **HEAVY)
+# compiled table functions
+U('C07', 'c07.sin_angle_aprox', SIN_APROX, None, None, cxx='fixedmath::sin_angle_aprox($1)', ub_only=True, backends=('sat', 'kissat'), timeout=600)
+U('C07', 'c07.cos_angle_aprox', COS_APROX, None, None, cxx='fixedmath::cos_angle_aprox($1)', ub_only=True, backends=('sat', 'kissat'), timeout=600)
+U('C07', 'c07.sqrt_aprox', SQRT_APROX, None, None, cxx='fixedmath::sqrt_aprox($1)', **UB)
+U('C07', 'c07.hypot_aprox', '_ZN9fixedmath11hypot_aproxENS_7fixed_tES0_', None, None, cxx='fixedmath::hypot_aprox($1,$2)', **HEAVY)
 
 NOT_APPLICABLE = {}
